@@ -2,16 +2,16 @@
    Instances by computation on the executable model (symbol level, both rates, both
    schedules, stale junk in every work position that is not received): for every
    configuration with K + R <= 3, EVERY subset of the shards with at least K members.
-   General theorem, low rate (C01_low): for EVERY configuration of the envelope, every pair of
-   engine schedules (encoder, decoder), every set of received shards with at least
-   original_count members, every data and every junk in the unreceived work positions, the
-   decoder returns the missing originals.  Proof: Lagrange/LCH polynomial theory over the
+   General theorems, both rates (C01_low, C01_high): for EVERY configuration of the envelope,
+   every pair of engine schedules (encoder, decoder), every set of received shards with at
+   least original_count members, every data and every junk in the unreceived work positions,
+   the decoder returns the missing originals.  Proof: Lagrange/LCH polynomial theory over the
    MathComp field GF(2^16) (LchPoly.v), Walsh-Hadamard convolution for eval_poly (Walsh.v,
    Locator.v), truncated transforms (Trunc.v). *)
 From Coq Require Import NArith Bool List Lia.
 From RS.Gen Require Import Prelude GenConsts.
 From RS.Model Require Import Field Tables Sched Codec Spec.
-From RS.Proofs Require Import RoundLow.
+From RS.Proofs Require Import RoundLow RoundHigh.
 Import ListNotations.
 Local Open Scope N_scope.
 
@@ -32,6 +32,22 @@ Theorem C01_low : forall (e e' : engine) (K R : N) (recv : N -> bool) (k kn : na
   nth (N.to_nat i) (snd (decode_low_work sym_ops e' K R recv work)) 0 = nth (N.to_nat i) w 0.
 Proof. intros e e' K R recv k kn w work; intros. eapply (decode_low_roundtrip e e' K R recv k kn); eassumption. Qed.
 Print Assumptions C01_low.
+
+(* high rate: recovery at [0, R), originals at [m, m + K) with m = next_power_of_two(R) *)
+Theorem C01_high : forall (e e' : engine) (K R : N) (recv : N -> bool) (k kn : nat) (w work : list N),
+  1 <= K -> 1 <= R -> npow2 R = 2 ^ N.of_nat k -> 2 ^ N.of_nat k + K <= 65536 ->
+  (kn <= 16)%nat -> 2 ^ N.of_nat k + K <= 2 ^ N.of_nat kn ->
+  Forall (fun x => x < 65536) w -> length w = N.to_nat (high_enc_work_count K R) ->
+  length work = Nat.pow 2 kn -> Forall (fun x => x < 65536) work ->
+  (forall j, j < R -> recv j = true ->
+     nth (N.to_nat j) work 0 = nth (N.to_nat j) (encode_high sym_ops e K R w) 0) ->
+  (forall i, i < K -> recv (2 ^ N.of_nat k + i) = true ->
+     nth (N.to_nat (2 ^ N.of_nat k + i)) work 0 = nth (N.to_nat i) w 0) ->
+  (N.to_nat K <= cnt recv 0 R + cnt recv (2 ^ N.of_nat k) (2 ^ N.of_nat k + K))%nat ->
+  forall i, i < K -> recv (2 ^ N.of_nat k + i) = false ->
+  nth (N.to_nat (2 ^ N.of_nat k + i)) (snd (decode_high_work sym_ops e' K R recv work)) 0 = nth (N.to_nat i) w 0.
+Proof. intros e e' K R recv k kn w work; intros. eapply (decode_high_roundtrip e e' K R recv k kn); eassumption. Qed.
+Print Assumptions C01_high.
 
 Definition data (K : N) : list N := map (fun i => (i * 40503 + 977) mod 65536) (range 0 K).
 Definition junkv (i : N) : N := (i * 7919 + 4242) mod 65536.
